@@ -33,20 +33,24 @@ def vdi_spec(draw, tier="quick", layer=0, fixed_geometry=None):
     else:
         bits = draw(st.one_of(st.sampled_from([20, 20, 16, 12, 9]), st.integers(9, 22 if tier == "thorough" else 21)))
         bs = 1 << bits
-        nb = draw(st.one_of(st.integers(1, 6), st.integers(1, 40)))
+        nb = draw(st.one_of(st.integers(1, 6), st.integers(1, 40), st.sampled_from([1023, 1025, 4097, 9000])))
         tail = draw(st.sampled_from([0, 0, 512, 1024, 4096 + 512, 8192, 8192 + 512, -512]))
         last = bs if tail == 0 else (tail % bs) or bs
         last = max(512, (last // 512) * 512)
         size = (nb - 1) * bs + last
-    kinds = draw(st.lists(st.sampled_from(["a", "a", "a", "u", "z"]), min_size=nb, max_size=nb))
-    alloc_l = [i for i, k in enumerate(kinds) if k == "a"]
+    if nb <= 40:
+        kinds = dict(enumerate(draw(st.lists(st.sampled_from(["a", "a", "a", "u", "z"]), min_size=nb, max_size=nb))))
+    else:
+        idx = set(draw(strat.sparse_subset(nb, 24))) | {b for b in (0, 1023, 1024, 4095, 4096, nb - 1) if b < nb and draw(st.booleans())}
+        kinds = {i: draw(st.sampled_from(["a", "a", "a", "z"])) for i in sorted(idx)}
+    alloc_l = [i for i, k in sorted(kinds.items()) if k == "a"]
     slots = draw(strat.placement(len(alloc_l)))
     bo = 512 * draw(st.sampled_from([1, 2, 8, 2048, 3]))
     do_min = bo + 4 * nb
     do = ((do_min + 511) // 512) * 512 + 512 * draw(st.sampled_from([0, 0, 1, 7, 2048]))
     spec = {
         "block_size": bs, "nblocks": nb, "disk_size": size, "blocks_offset": bo, "data_offset": do,
-        "alloc": [[lg, ph] for lg, ph in zip(alloc_l, slots)], "zero": [i for i, k in enumerate(kinds) if k == "z"],
+        "alloc": [[lg, ph] for lg, ph in zip(alloc_l, slots)], "zero": [i for i, k in sorted(kinds.items()) if k == "z"],
         "layer": layer,
     }
     return spec
@@ -55,7 +59,13 @@ def vdi_spec(draw, tier="quick", layer=0, fixed_geometry=None):
 @st.composite
 def strategy_(draw, tier):
     spec = draw(vdi_spec(tier))
-    spec["requests"] = draw(strat.requests(spec["disk_size"], spec["block_size"], count=6))
+    bs = spec["block_size"]
+    pts = []
+    for b, _ph in spec["alloc"][:32]:
+        pts += [b * bs, (b + 1) * bs]
+    spec["requests"] = draw(strat.requests(spec["disk_size"], bs, count=6, points=pts, whole_limit=4 << 20))
+    if draw(st.integers(0, 5)) == 0:  # a parent image below: zero blocks stay zero, unallocated ones fall through
+        spec["parent"] = draw(vdi_spec(tier, layer=1, fixed_geometry=(bs, spec["nblocks"], spec["disk_size"])))
     return spec
 
 
@@ -91,7 +101,19 @@ def check(spec) -> Outcome:
     out.cls(f"bs=2^{spec['block_size'].bit_length() - 1}", "tail_partial" if spec["disk_size"] % spec["block_size"] else "tail_full")
     if spec["block_size"] < 8192:
         out.cls("block<buffer")
-    v, err = lib(VDI, fh)
+    if spec.get("parent"):
+        from hv.sparse import Overlay
+
+        pfh, play, _ = bvdi.build(spec["parent"])
+        parent, err = lib(VDI, pfh)
+        if err:
+            out.fail(err.sig("vdi-open"), f"VDI(parent) raised {err.describe()}")
+            return out
+        out.cls("with-parent")
+        v, err = lib(VDI, fh, parent=parent)
+        lay = Overlay([lay, play], spec["disk_size"])
+    else:
+        v, err = lib(VDI, fh)
     if err:
         out.fail(err.sig("vdi-open"), f"VDI() raised {err.describe()}")
         return out
